@@ -126,6 +126,7 @@ def run_history(h, ctx, farmer=None):
         f = sweeps.make_rec(sorted_sweep(sw), kind, as_np=bool(h.get('np')))       # 'np': arrays come back as numpy arrays
     loc = os.path.join(d_abs, '.xyz-t')
     crop, obs = None, []
+    parked = None          # a second live Crop object on the same directory ('switch' swaps the two)
     sz = sweeps.sizes(sorted_sweep(sw))
     stale0 = None
     if any(op['op'] == 'stalequery' for op in h['ops']):
@@ -141,6 +142,8 @@ def run_history(h, ctx, farmer=None):
                                         shuffle=(op.get('shuffle') or False))
                     elif k == 'reload':
                         crop = xyz.Crop(name='t', parent_dir=pd, **({'autoload': False} if op.get('autoload') is False else {}))
+                    elif k == 'switch':
+                        crop, parked = (parked if parked is not None else xyz.Crop(name='t', parent_dir=pd)), crop
                     elif k == 'emptydir':
                         # the bare directory skeleton without an info file (left by an interrupted first sow, or made by hand)
                         os.makedirs(os.path.join(loc, 'batches'), exist_ok=True)
